@@ -339,9 +339,9 @@ def design_check_loopforms(rep, tier):
     rep.add_tlc(res)
     rep.coverage["optimiser_loop_algebra"] = {
         "module": "LoopForms.tla", "widths": list(range(1, maxw + 1)), "distinct_states": res.distinct,
-        "forms": ["lin", "triA", "triB", "geo"], "counter": ["known", "read from input"],
+        "forms": ["lin", "triA", "triB", "geo", "geoT"], "counter": ["known", "read from input"],
         "counter_update": ["step (c += inc)", "set (c := inc)"],
-        "checked": ["TripOK", "UnknownOnlyWhenEvenStep", "LinOK", "TriOK", "GeoOK", "Classified"],
+        "checked": ["TripOK", "UnknownOnlyWhenEvenStep", "LinOK", "TriOK", "GeoOK", "GeoTOK", "Classified"],
         "actions": {k: v for k, v in res.coverage.items() if k in ("Pick1", "Pick2", "Iterate", "Exit", "Spin")}}
     if res.violated:
         raise ToolError("LoopForms: the transcribed loop algebra disagrees with the step-by-step run (%s)\n%s" % (
@@ -914,7 +914,7 @@ def c04(tier):
 def c01(tier):
     levels = [0, 1, 2, 3, 4, 7]
     per = {"E": 6000, "rnd": 3000, "S": 6000, "R": 300, "M": 2000, "N": 500, "L": 1500, "G": 1500, "I": 400,
-           "W": 600, "P": 40, "Q": 300, "F": 4000, "Y": 1500, "Z": 30} if tier == "quick" else \
+           "W": 600, "P": 40, "Q": 300, "F": 6000, "Y": 1500, "Z": 30} if tier == "quick" else \
         {"E": 60000, "rnd": 60000, "S": 150000, "R": 400, "M": 40000, "N": 10000, "L": 40000, "G": 30000, "I": 8000,
          "W": 12000, "P": 800, "Q": 6000, "F": 50000, "Y": 30000, "Z": 300}
     return run_equivalence("C01", tier, lambda c: [{"backend": "irint", "level": l} for l in levels],
